@@ -92,6 +92,8 @@ func businessDiff(a, b map[string][]byte) bool {
 	return false
 }
 
+var ouIdents = map[string]*simpeer.Identity{}
+
 func (e *c11ex) ident(name string) []byte {
 	w := theWorld()
 	switch name {
@@ -103,6 +105,15 @@ func (e *c11ex) ident(name string) []byte {
 		return w.Client.Creator
 	case "none":
 		return nil
+	}
+	if strings.HasPrefix(name, "ou:") {
+		// a certificate with the given organisational units (not the robot's key)
+		if id, ok := ouIdents[name]; ok {
+			return id.Creator
+		}
+		id := simpeer.NewIdentity("platformMSP", strings.Split(name[3:], "+")...)
+		ouIdents[name] = id
+		return id.Creator
 	}
 	return []byte("garbage-not-a-serialized-identity")
 }
@@ -279,6 +290,9 @@ func genC11(c *Cfg, emit func([]string)) {
 	entry := []string{"batchExecute", "createIndex", "swapDone", "multiSwapDone", "createCCTransferTo", "deleteCCTransferTo",
 		"commitCCTransferFrom", "cancelCCTransferFrom", "deleteCCTransferFrom"}
 	idents := []string{"robot", "admincert", "client", "none", "garbage"}
+	// organisational units around "admin": only a unit equal to it (in any letter case) may initialise
+	ouVariants := []string{"ou:Admin", "ou:ADMIN", "ou:client+admin", "ou:administrators", "ou:nonadmin", "ou:admin-readonly",
+		"ou:sysadmin+client", "ou:adm", "ou:admi", "ou:admin2", "ou:_admin", "ou:peer+Administrator", "ou:admın"}
 	senders := []string{"admin", "issuer", "u0"}
 	disPool := []string{"TxTransfer", "TxScript", "NBTxScriptNb", "QueryPoke", "TxLockTokenBalance", "TxSwapBegin"}
 	nCfg := 12
@@ -303,7 +317,7 @@ func genC11(c *Cfg, emit func([]string)) {
 		}
 		h := []string{"reset", "methods " + table,
 			fmt.Sprintf("cfg %s %s %d %d %d", []string{"ski", "hash"}[ci%2], orDash(dis, "+"), swaps, mswaps, hasopts)}
-		for _, id := range idents {
+		for _, id := range append(append([]string{}, idents...), ouVariants...) {
 			h = append(h, "init "+id)
 		}
 		// entry points x identities
@@ -341,6 +355,6 @@ func genC11(c *Cfg, emit func([]string)) {
 		}
 		emit(h)
 	}
-	c.Rule = fmt.Sprintf("%d configurations (subsets of a 6-function disabled pool, swap and multi-swap switches, with and without an options section, robot configured by key id or by certificate hash) x { 9 entry points x 5 caller identities (robot, admin-OU cert, ordinary cert, no creator, garbage creator); 23 functions (scripted tx/nbtx/query bodies with and without sender, transfer, swap and multi-swap methods, the 6 admin-only methods, unknown function) x routes (direct or batched submission+execution, task execution) x signed senders (admin, issuer, stranger) }: %d calls; plus Init under every identity. Observed: refusal class / pass, and the business-ledger diff on refusal. non-trivial = every configuration history; distinct = sha256", nCfg, total)
+	c.Rule = fmt.Sprintf("%d configurations (subsets of a 6-function disabled pool, swap and multi-swap switches, with and without an options section, robot configured by key id or by certificate hash) x { 9 entry points x 5 caller identities (robot, admin-OU cert, ordinary cert, no creator, garbage creator); 23 functions (scripted tx/nbtx/query bodies with and without sender, transfer, swap and multi-swap methods, the 6 admin-only methods, unknown function) x routes (direct or batched submission+execution, task execution) x signed senders (admin, issuer, stranger) }: %d calls; plus Init under every identity and under certificates whose organisational units are near-misses of 'admin' (substrings, superstrings, other letter case, several units). Observed: refusal class / pass, and the business-ledger diff on refusal. non-trivial = every configuration history; distinct = sha256", nCfg, total)
 	c.Extra = map[string]any{"configurations": nCfg, "calls": total}
 }
